@@ -57,14 +57,35 @@ def d1_d2(chk: Check) -> None:
              "reverse (descending positions)", floor=1)
     fi = prog.func("Processor.delete_nodes")
     chk.analysed(fi)
-    loops = [n for n in fi.node.body if isinstance(n, ast.For) and
-             "_get_required_nodes" in src(n.iter)]
     calls = [n for n in walk_local(fi.node) if isinstance(n, ast.Call) and
              src(n.func).endswith("._delete_nodes")]
+    loops = [n for n in fi.node.body if isinstance(n, ast.For) and
+             isinstance(n.iter, ast.Call) and any(
+                 isinstance(c, ast.Call) and
+                 isinstance(c.func, ast.Attribute) and c.func.attr == "append"
+                 for c in walk_local(n))]
     if len(loops) != 1 or len(calls) != 1:
         raise AnalysisError("delete_nodes: gather loop / delete call not "
                             "found")
     loop, call = loops[0], calls[0]
+    # the nodes to delete come from the *required* query on the document:
+    # an optional-match query creates what it does not find
+    chk.rule("C04-D1b", "the nodes to delete are gathered by the required-"
+             "match query on the document root (a query that can create "
+             "nodes must not feed a delete)", floor=1)
+    from sa.model import resolve_call
+    cands = resolve_call(prog, fi, loop.iter)
+    cname = cands[0].short if len(cands) == 1 else src(loop.iter.func)
+    a0 = src(loop.iter.args[0]) if loop.iter.args else ""
+    if cname.endswith("_get_required_nodes") and a0 == "self.data":
+        chk.ok("C04-D1b", fi, loop, "for ... in " + src(loop.iter)[:60],
+               "required-match query on self.data")
+    else:
+        chk.fail("C04-D1b", fi, loop, "for ... in " + src(loop.iter)[:60],
+                 "matches are gathered through `{}`, not the required-match "
+                 "query on self.data: missing branches of a fanned-out path "
+                 "are created (padding, empty maps) and then reported as "
+                 "deleted".format(cname))
     inside = any(a is loop for a in ancestors(call))
     gathered = [c for c in walk_local(loop) if isinstance(c, ast.Call) and
                 isinstance(c.func, ast.Attribute) and c.func.attr == "append"]
@@ -358,3 +379,6 @@ def run(chk: Check) -> None:
     d3_d4(chk)
     d5_partial(chk)
     d6_always_acts(chk)
+    from rules.c06 import falsy_rule
+    falsy_rule(chk, "C04-D8", "yamlpath/processor.py", 30,
+               doc_exprs={"self.data", "<.node>"})
